@@ -52,6 +52,9 @@ func (t Term) String() string { return t.render(nil) }
 
 func (t Term) render(alias func(string) string) string {
 	nm := func(n string, tok bool) string {
+		if n == "ERROR" {
+			return "@error"
+		}
 		if tok && alias != nil {
 			return alias(n)
 		}
